@@ -296,8 +296,8 @@ PROPS['C04'] = {
 PROPS['C05'] = {
     'title': 'Planar area and ring orientation are exact up to rounding',
     'level': 'proof',
-    'verus': ['c05_exact', 'c05_ring', 'c05_polygon'],
-    'twins': {'C05.V.twice_signed_ring_area': r'^c05_k_(ring_area|polygon_area)', 'C05.V.polygon_signed_area': r'^c05_k_polygon_area', 'C05.V.multipolygon_signed_area': r'^c05_k_rect_tri_collection_area', 'C05.V.multipolygon_unsigned_area': r'^c05_k_rect_tri_collection_area'},
+    'verus': ['c05_exact', 'c05_ring', 'c05_polygon', 'c05_triangle'],
+    'twins': {'C05.V.twice_signed_ring_area': r'^c05_k_(ring_area|polygon_area)', 'C05.V.polygon_signed_area': r'^c05_k_polygon_area', 'C05.V.multipolygon_signed_area': r'^c05_k_rect_tri_collection_area', 'C05.V.multipolygon_unsigned_area': r'^c05_k_rect_tri_collection_area', 'C05.V.triangle_signed_area': r'^c05_k_rect_tri_collection_area', 'C05.V.triangle_unsigned_area': r'^c05_k_rect_tri_collection_area'},
     'kani_extra': ['--no-memory-safety-checks', '--no-overflow-checks', '--no-assertion-reach-checks'],
     'kani': [
         ('geo', 'c05.rs', r'^c05_k_ring_area_open_', 'complete', 'quick'),
@@ -305,13 +305,14 @@ PROPS['C05'] = {
         ('geo', 'c05.rs', r'^c05_k_ring_area_closed_3$', 'complete', 'thorough'),
         ('geo', 'c05.rs', r'^c05_k_(orient_default_cw_cw|orient_reversed_ccw_cw|winding_tri_1_dup0|winding_tri_2_dup2|winding_tri_1_dupclose|winding_tri_2_dupclose|make_winding_0)$', 'bounded', 'thorough'),
     ],
-    'trusted': ['Verus unit c05_polygon: ASSUMED std contract of Iterator::fold for slice::Iter; get_linestring_area abstract (a function of the ring; the halving is a division); fold closures annotated in place (X10); exact ring scalar',
+    'trusted': ['Verus unit c05_triangle: Area for Triangle (signed = shoelace sum of the three sides / 2, unsigned = its absolute value, sign = sign of the sum) and get_linestring_area (= twice_signed_ring_area / 2): the quotient is named, not evaluated (exact ring scalar has no quotients); ASSUMED: sign law of a division by a positive scalar (ax_div), std contract of Iterator::fold for slice::Iter; Triangle::to_lines twin (proved in c18_geo_types); twice_signed_ring_area twin (proved in c05_ring)',
+                'Verus unit c05_polygon: ASSUMED std contract of Iterator::fold for slice::Iter; get_linestring_area abstract (a function of the ring; the halving is a division); fold closures annotated in place (X10); exact ring scalar',
                 'Verus unit c05_ring: exact ring scalar (no overflow, no rounding); twins of LineString::lines() and Line::map_coords (contract proved in unit c19_map); the inline closure of the ring walk annotated in place (X10)',
                 'ring area / winding order: scalar i16 on the lattice |c| <= 5 (products fit: exact), triangles incl. a repeated vertex anywhere; complete for that lattice',
                 'Polygon / Rect / Triangle / MultiPolygon areas and orient: concrete literal shapes (8x8 shell, two holes) at offsets 0 and +-1e8, every listed combination of ring windings; robust::orient2d stubbed by its assumed contract in the orient harnesses'],
     'undecided_clauses': [
         'rounding bound for non-lattice coordinates ("within a few units of rounding")',
-        'GeometryCollection areas (recursive Geometry delegation: CBMC timeout); winding_order for rings with more than 3 distinct vertices; Triangle / GeometryCollection areas beyond the bounded harnesses (array / map adaptors: outside Verus)',
+        'GeometryCollection areas (recursive Geometry delegation: CBMC timeout); winding_order for rings with more than 3 distinct vertices; GeometryCollection areas beyond the bounded harnesses (map adaptors over the recursive Geometry enum: outside Verus)',
     ],
 }
 
